@@ -674,6 +674,13 @@ impl ClusterActor {
                             break 'iter;
                         }
 
+                        // The stream index is per bucket: a stream that lives in another
+                        // partition of this bucket is not this partition's, and this
+                        // partition's watermark says nothing about its events
+                        if event.partition_id != partition_id {
+                            break 'iter;
+                        }
+
                         // Check if event is beyond watermark (safety check - uses
                         // partition_sequence)
                         if event.partition_sequence >= watermark {
@@ -1067,7 +1074,10 @@ impl Message<GetStreamVersion> for ClusterActor {
                             .into_iter()
                             .flat_map(|commit| commit.into_iter())
                             .find_map(|event| {
-                                (event.partition_sequence < watermark)
+                                // (events of another partition of the bucket are not gated
+                                // by this partition's watermark: they are not this stream)
+                                (event.partition_id == msg.partition_id
+                                    && event.partition_sequence < watermark)
                                     .then_some(event.stream_version)
                             })
                         {
